@@ -447,6 +447,24 @@ func EncodeBody(t *rapid.T, ctKey string, v any, hostile bool) ([]byte, string) 
 		_ = w.SetBoundary("XbOuNdArYX")
 		if m, ok := v.(M); ok {
 			for _, k := range jv.Keys(m) {
+				if hostile && rapid.IntRange(0, 1).Draw(t, "partct") == 0 {
+					// a part that announces a media type of its own, whatever the property's schema says
+					pct := rapid.SampledFrom([]string{"application/x-www-form-urlencoded", "multipart/form-data; boundary=InNeR", "application/x-www-form-urlencoded; charset=utf-8", "multipart/form-data; boundary=InNeR", "multipart/form-data", "text/plain", "application/json", "application/xml", "application/octet-stream", "a/b; c"}).Draw(t, "partctv")
+					var pb []byte
+					switch {
+					case strings.HasPrefix(pct, "application/x-www-form-urlencoded"):
+						pb = []byte("x=1&y=two&x=3")
+					case strings.HasPrefix(pct, "multipart/form-data"):
+						pb = []byte("--InNeR\r\nContent-Disposition: form-data; name=\"x\"\r\n\r\n1\r\n--InNeR--\r\n")
+					case pct == "application/json":
+						pb, _ = json.Marshal(m[k])
+					default:
+						pb = []byte(styleser.Prim(m[k]))
+					}
+					pw, _ := w.CreatePart(map[string][]string{"Content-Disposition": {fmt.Sprintf(`form-data; name=%q`, k)}, "Content-Type": {pct}})
+					_, _ = pw.Write(pb)
+					continue
+				}
 				switch x := m[k].(type) {
 				case []any:
 					for _, e := range x {
